@@ -347,7 +347,7 @@ func init() {
 		"(github.com/inconshreveable/log15.Logger).Error", "(github.com/inconshreveable/log15.Logger).Crit", "(github.com/inconshreveable/log15.Logger).New",
 		"(common.Logger).Info", "(common.Logger).Debug", "(common.Logger).Warn", "(common.Logger).Error", "(common.Logger).Crit", "(common.Logger).New",
 		"fmt.Sprintf", "fmt.Sprint", "fmt.Println", "fmt.Printf", "fmt.Sprintln", "regexp.MatchString", "(*encoding/base64.Encoding).DecodeString", "time.Now", "time.Since", "(time.Time).Sub", "(time.Time).Add", "time.Unix",
-		"(github.com/inconshreveable/log15.Logger).Trace", "(time.Duration).Seconds",
+		"(github.com/inconshreveable/log15.Logger).Trace", "github.com/inconshreveable/log15.Error", "github.com/inconshreveable/log15.Info", "github.com/inconshreveable/log15.Warn", "github.com/inconshreveable/log15.Debug", "github.com/inconshreveable/log15.Crit", "(time.Duration).Seconds",
 		"(*sync.WaitGroup).Add", "(*sync.WaitGroup).Done", "(*sync.WaitGroup).Wait", "runtime/debug.Stack", "strings.ToLower", "strings.ToUpper",
 		"encoding/hex.EncodeToString", "strconv.Itoa", "strconv.FormatUint", "strconv.FormatInt"} {
 		reg(n, nil, nop)
@@ -422,6 +422,15 @@ func init() {
 			return &Val{K: KTuple, T: rt, Fs: []*Val{out, ev}}, st
 		})
 	}
+	// crypto/ed25519.Verify(publicKey, message, sig): uninterpreted sigValid(pk, msg, sig); per its documentation a signature of
+	// any length other than 64 never verifies (and the key has 32 bytes, else it panics)
+	reg("crypto/ed25519.Verify", nil, func(fr *Frame, st *State, a []*Val, cc *ssa.CallCommon, pos token.Pos) (*Val, *State) {
+		hp := st.heapGet("S:byte", SArr(SInt, SArr(SInt, SInt)))
+		bv := func(v *Val) *Term { return fr.C.bytesVal(Select(hp, v.X), v.Off, v.Len) }
+		r := App("spec!sigValid", SBool, bv(a[0]), bv(a[1]), bv(a[2]))
+		fr.C.addFact(Implies(r, And(Eq(a[2].Len, Num(64)), Eq(a[0].Len, Num(32)))))
+		return boolVal(r), st
+	})
 	// time.Time: an instant is identified by an uninterpreted nanosecond count of its (wall, ext) fields
 	reg("(time.Time).UnixNano", nil, func(fr *Frame, st *State, a []*Val, cc *ssa.CallCommon, pos token.Pos) (*Val, *State) {
 		return intVal(res0(cc), wrap(timeNano(a[0]), res0(cc))), st
@@ -448,7 +457,7 @@ func init() {
 	reg("github.com/zenon-network/go-zenon/common.JoinBytes", []string{"S:byte"}, func(fr *Frame, st *State, a []*Val, cc *ssa.CallCommon, pos token.Pos) (*Val, *State) {
 		c := fr.C
 		parts := a[0]
-		if !parts.Len.IsConst() || parts.Len.Val.Int64() > 8 {
+		if !parts.Len.IsConst() || parts.Len.Val.Int64() > 24 {
 			st.havocKeys([]string{"S:byte"}, nil)
 			return fr.freshResult(cc.Signature(), "JoinBytes"), st
 		}
